@@ -2,7 +2,7 @@
    ExtrOcamlBasic only: bool, option, unit, list, prod, sumbool, sumor map to the
    OCaml types; numbers (nat, positive, Z, N) stay Coq inductives. *)
 Require Import Capp.Base Capp.ListCache Capp.Rr Capp.Lfuda Capp.TtlLru Capp.UtMap Capp.Container.
-Require Import Capp.RrLit Capp.LruLit Capp.FifoLit.
+Require Import Capp.RrLit Capp.LruLit Capp.FifoLit Capp.LfudaLit Capp.TtlLit Capp.UmLit.
 Require Extraction.
 Require Import ExtrOcamlBasic.
 
@@ -21,6 +21,14 @@ Definition zl_lru_step : bool -> lrul Z Z -> op Z Z -> Z -> list nat -> res (lru
 Definition zl_fifo_init : nat -> fifol Z Z := fifol_init.
 Definition zl_fifo_step : fifol Z Z -> op Z Z -> Z -> list nat -> res (fifol Z Z * ret Z Z) := fl_step.
 
+Definition zl_lfuda_init : nat -> Z -> nat -> nat -> lfdl Z Z := lfdl_init.
+Definition zl_lfuda_step : lfdl Z Z -> op Z Z -> Z -> list nat -> res (lfdl Z Z * ret Z Z) := dl_step true.
+Definition zl_ttl_init : nat -> Z -> ttll Z Z := ttll_init.
+Definition zl_ttl_step : bool -> ttll Z Z -> op Z Z -> Z -> list nat -> res (ttll Z Z * ret Z Z) := tt_step.
+Definition zl_um_init : Z -> uml Z Z := uml_init.
+Definition zl_um_step : uml Z Z -> op Z Z -> Z -> list nat -> res (uml Z Z * ret Z Z) := ul_step.
+
 Extraction Language OCaml.
 Extraction "model.ml" zc_init zc_step zc_view zc_view_use zc_size zc_capacity
-  zl_rr_init zl_rr_step zl_lru_init zl_lru_step zl_fifo_init zl_fifo_step.
+  zl_rr_init zl_rr_step zl_lru_init zl_lru_step zl_fifo_init zl_fifo_step
+  zl_lfuda_init zl_lfuda_step zl_ttl_init zl_ttl_step zl_um_init zl_um_step.
